@@ -203,23 +203,50 @@ type errObj struct {
 	inner *url.Error // the *url.Error at top level or wrapped
 	cause error
 	text  string // Error() before the call
+	op    string
+	// the *url.Error in the Err field of the (inner) *url.Error, if any, and the text it must keep
+	innerURL  *url.Error
+	innerText string
 }
 
-func makeErr(kind, urlText string) errObj {
-	cause := errors.New("cause")
+// errOps concretises the Op tokens of Redact.tla.
+var errOps = map[string]string{"Get": "Get", "Post": "Post", "Head": "Head", "parse": "parse", "": "", "dial": "dial", "read": "read",
+	"text": "fetching the blocklist from", "mixed": "gEt"}
+
+// makeInner builds the Err field of the *url.Error; innerURL is the *url.Error inside it, if any.
+func makeInner(inner, urlText string) (err error, innerURL *url.Error) {
+	switch inner {
+	case "nil":
+		return nil, nil
+	case "wrapped":
+		return fmt.Errorf("dial tcp: %w", errors.New("cause")), nil
+	case "urlerror":
+		iu := &url.Error{Op: "parse", URL: urlText, Err: errors.New("invalid URL escape")}
+		return iu, iu
+	default:
+		return errors.New("cause"), nil
+	}
+}
+
+func makeErr(kind, op, inner, urlText string) errObj {
+	opText, ok := errOps[op]
+	if !ok {
+		opText = op // recorded runs pass the text itself
+	}
+	cause, innerURL := makeInner(inner, urlText)
 	switch kind {
 	case "nil":
 		return errObj{}
 	case "top":
-		e := &url.Error{Op: "Get", URL: urlText, Err: cause}
-		return errObj{err: e, inner: e, cause: cause, text: e.Error()}
+		e := &url.Error{Op: opText, URL: urlText, Err: cause}
+		return errObj{err: e, inner: e, cause: cause, text: e.Error(), op: opText, innerURL: innerURL, innerText: urlText}
 	case "wrapped":
-		e := &url.Error{Op: "Get", URL: urlText, Err: cause}
+		e := &url.Error{Op: opText, URL: urlText, Err: cause}
 		w := error(&wrapErr{msg: "request failed", err: e})
 		if len(urlText)%2 == 0 {
 			w = fmt.Errorf("request failed: %w", e)
 		}
-		return errObj{err: w, inner: e, cause: cause, text: w.Error()}
+		return errObj{err: w, inner: e, cause: cause, text: w.Error(), op: opText, innerURL: innerURL, innerText: urlText}
 	default:
 		e := fmt.Errorf("other error mentioning %s", urlText)
 		return errObj{err: e, text: e.Error()}
@@ -228,8 +255,8 @@ func makeErr(kind, urlText string) errObj {
 
 // judgeErr calls RedactUserinfoInURLError(u, e.err) and checks the statement.
 // It returns the URL text the (inner) *url.Error holds afterwards.
-func judgeErr(res *vh.Result, key string, u *url.URL, kind, urlText string) (after string, ok bool) {
-	e := makeErr(kind, urlText)
+func judgeErr(res *vh.Result, key string, u *url.URL, kind, op, inner, urlText string) (after string, ok bool) {
+	e := makeErr(kind, op, inner, urlText)
 	before := snap(u)
 	if pv, panicked := vh.Try(func() { urlutil.RedactUserinfoInURLError(u, e.err) }); panicked {
 		res.Mismatch(key, fmt.Sprintf("RedactUserinfoInURLError panics on a %s error: %v", kind, pv), nil)
@@ -250,8 +277,11 @@ func judgeErr(res *vh.Result, key string, u *url.URL, kind, urlText string) (aft
 		return "", ok
 	}
 	after = e.inner.URL
-	if e.inner.Op != "Get" || e.inner.Err != e.cause {
-		fail("Op/Err of the *url.Error changed: Op %q Err %v", e.inner.Op, e.inner.Err)
+	if e.inner.Op != e.op || e.inner.Err != e.cause {
+		fail("Op/Err of the *url.Error changed: Op %q (was %q) Err %v", e.inner.Op, e.op, e.inner.Err)
+	}
+	if e.innerURL != nil && (e.innerURL.URL != e.innerText || e.innerURL.Op != "parse") {
+		fail("the *url.Error in the Err field (not top level) was changed: URL %q, must stay %q", e.innerURL.URL, e.innerText)
 	}
 	switch {
 	case kind == "top" && before.user != nil:
@@ -259,7 +289,7 @@ func judgeErr(res *vh.Result, key string, u *url.URL, kind, urlText string) (aft
 		masked := before.val
 		masked.User = url.UserPassword("xxxxx", "xxxxx")
 		if want := masked.String(); after != want {
-			fail("the URL text of the top-level *url.Error is %q, want the redacted form %q", after, want)
+			fail("the URL text of the top-level *url.Error (Op %q) is %q, want the redacted form %q", e.op, after, want)
 		}
 	case after != urlText:
 		fail("the URL text of a %s *url.Error (URL userinfo set: %v) was changed to %q, must stay %q", kind, before.user != nil, after, urlText)
@@ -448,7 +478,10 @@ func replay(args []string) error {
 				urlText = "://user:pw@ %zz not a url"
 			}
 			ekey := fmt.Sprintf("RedactUserinfoInURLError(%q, %s error with URL %q)", short(u1.String()), v.Err.Kind, short(urlText))
-			after, ok := judgeErr(res, ekey, u1, v.Err.Kind, urlText)
+			if v.Err.Op != "Get" || v.Err.Inner != "cause" {
+				ekey += fmt.Sprintf(" Op=%q Err=%s", errOps[v.Err.Op], v.Err.Inner)
+			}
+			after, ok := judgeErr(res, ekey, u1, v.Err.Kind, v.Err.Op, v.Err.Inner, urlText)
 			if ok && v.Err.Kind != "other" {
 				changed := after != urlText
 				// a masklike userinfo redacts to the same text: the spec's "redacted" token then equals "orig"
@@ -582,10 +615,18 @@ func record(args []string) error {
 		if kind == "nil" {
 			urlText = ""
 		}
-		e.Err = errRec{Kind: kind, Op: "Get", URL: asc(urlText), Inner: "cause"}
+		opTok := []string{"Get", "Get", "parse", "Post", "Head", "", "dial", "read", "text", "mixed"}[rng.IntN(10)]
+		innerTok := []string{"cause", "cause", "nil", "wrapped", "urlerror"}[rng.IntN(5)]
+		if kind == "nil" || kind == "other" {
+			opTok, innerTok = "Get", "cause"
+		}
+		e.Err = errRec{Kind: kind, Op: opTok, URL: asc(urlText), Inner: innerTok}
 		errCalls++
 		ekey := fmt.Sprintf("RedactUserinfoInURLError(%q, %s error with URL %q)", short(u1.String()), kind, short(urlText))
-		after, _ := judgeErr(res, ekey, &u1, kind, urlText)
+		if opTok != "Get" || innerTok != "cause" {
+			ekey += fmt.Sprintf(" Op=%q Err=%s", errOps[opTok], innerTok)
+		}
+		after, _ := judgeErr(res, ekey, &u1, kind, opTok, innerTok, urlText)
 		e.ErrAfter = e.Err
 		if kind == "top" || kind == "wrapped" {
 			e.ErrAfter.URL = asc(after)
@@ -706,7 +747,7 @@ func stress(args []string) error {
 					if mode == "redact" || (mode == "mixed" && (i+c)%2 == 0) {
 						text = urlutil.RedactUserinfo(u).String()
 					} else {
-						e := &url.Error{Op: "Get", URL: before.str, Err: errors.New("cause")}
+						e := &url.Error{Op: []string{"Get", "parse", "", "dial", "gEt"}[i%5], URL: before.str, Err: errors.New("cause")}
 						urlutil.RedactUserinfoInURLError(u, e)
 						text = e.URL
 					}
